@@ -125,7 +125,7 @@ func c06Run(c *core.Ctx, scn stopScn, h *hist.History, l *hist.Layout, tables []
 	// (i) parser-side failures must make Stream fail
 	parserSide := false
 	switch cls {
-	case "gate-reject", "unsupported-event":
+	case "gate-reject", "unsupported-event", "undecodable-event":
 		parserSide = true
 	case "handler":
 		for _, d := range res.Delivered {
